@@ -489,6 +489,14 @@ def _install_repo_names():
         skip_t = skip.t if isinstance(skip, SBool) else z3.BoolVal(bool(skip))
         return SStr(pyident(I.to_str_term(I.py_str(value)), I.to_str_term(I.py_str(prefix)), skip_t))
 
+    for fname in ("snake_case", "pascal_case", "kebab_case", "sanitize", "remove_string_escapes", "fix_reserved_words"):
+        f = z3.Function(fname, S, S)
+
+        def _m(I, args, kwargs, f=f):
+            value = args[0] if args else kwargs["value"]
+            return SStr(f(I.to_str_term(I.py_str(value))))
+        model(getattr(utils, fname), f"utils.{fname}(value): deterministic (contract: its Engine-A triples)")(_m)
+
     @model(utils.ClassName, "utils.ClassName(value, prefix): deterministic (contract: C09, Engine A)")
     def _cn(I, args, kwargs):
         value = args[0] if args else kwargs["value"]
